@@ -138,6 +138,29 @@ def check_function(facts, fn, res, rule, nbparticles_field="nbParticles"):
                     if g["extent"][1] != l["extent"][0]:
                         res.violation(rule, tbf.rel(facts.path_of(x)), fn["qname"], "tuple-size", x["l"][1],
                                       "per-particle tuple size %s differs from the per-leaf array count %s" % (fmt(g["extent"][1]), fmt(l["extent"][0])))
+            # every other use of the per-leaf pointer rows (data / results) inside a leaf visitor
+            in_copy = set()
+            for x in walk(lam):
+                if x.get("k") == "BinaryOperator" and x.get("op") == "=":
+                    for y in walk(x):
+                        in_copy.add(id(y))
+            ptr_params = [p["did"] for p in lm.params[2:4]]
+            tbf.link_parents(lam)
+            for x in walk(lam):
+                if x.get("k") == "DeclRefExpr" and x.get("did") in ptr_params and id(x) not in in_copy:
+                    call = None
+                    for a in tbf.ancestors(x):
+                        if a.get("k") in ("CallExpr", "CXXMemberCallExpr"):
+                            call = a
+                            break
+                        if a.get("k") in ("CompoundStmt",):
+                            break
+                    nm = tbf.callee_name(call) if call is not None else None
+                    if nm in ("insert", "copy", "copy_n", "memcpy", "memmove", "assign", "move", "fill", "fill_n"):
+                        res.violation(rule, tbf.rel(facts.path_of(x)), fn["qname"], "bulk:%s@%d" % (x.get("name"), x["l"][1]), x["l"][1],
+                                      "per-leaf values '%s' are moved in bulk (%s) in storage order; values must be staged and restored under the particle's original index, storage order changes when particles move" % (x.get("name"), nm))
+                    else:
+                        raise AnalysisBroken("%s: use of the per-leaf pointer array '%s' outside a recognised copy statement" % (facts.loc(x), x.get("name")))
             # allocation extent of the global objects captured by the lambda
     # allocation sizes
     for d in decls.values():
